@@ -1,23 +1,26 @@
 (* C02 proofs, part 4: every plan node refines the completion semantics; the root theorem. *)
 From Coq Require Import Lia ZifyN ZifyBool.
-From Gv Require Import lib.Bytes lib.Json C02.Model C02.Spec C02.ProofsBase C02.ProofsExt C02.ProofsRefine.
+From Gv Require Import lib.Bytes lib.Json C02.Model C02.Spec C02.ProofsBase C02.ProofsPaths C02.ProofsExt C02.ProofsRefine.
 Open Scope N_scope.
-
-Lemma path_shape : forall (as_item : bool) (p : list bytes),
-  (if as_item then match p with [] => true | _ => false end else single_key p) = true ->
-  (as_item = true /\ p = []) \/ (as_item = false /\ exists k, p = [k]).
-Proof.
-  intros as_item p H. destruct as_item; destruct p as [|k [|k2 r]]; try discriminate; eauto.
-Qed.
-
-Lemma get_set_path : forall p x parent v,
-  p = [] \/ (exists k, p = [k]) -> get_path p parent = Some v -> get_path p (set_path p x parent) = Some x.
-Proof.
-  intros p x parent v [-> | [k ->]] H; [reflexivity|]. eapply mutk_get_same; eauto.
-Qed.
 
 Section Refine2.
   Variable deny : bytes -> bytes -> bool.
+
+  Definition node_post (n : node) (parent : json) (tns : list (option bytes))
+             (parent' : json) (errs : list gerr) (st : wstatus) (res : option json) (errs' : list gerr) : Prop :=
+    errs = errs' /\ st <> WPanic /\ (st = WErr -> res = None) /\
+    (st = WOk -> exists t, res = Some t /\ render n parent' tns false = (marshal t, false)) /\
+    frame n parent parent'.
+
+  Lemma post_err : forall n parent tns parent' e,
+    frame n parent parent' -> node_post n parent tns parent' e WErr None e.
+  Proof. intros. repeat split; try congruence; auto. Qed.
+  Lemma post_ok : forall n parent tns parent' e t,
+    render n parent' tns false = (marshal t, false) ->
+    frame n parent parent' -> node_post n parent tns parent' e WOk (Some t) e.
+  Proof. intros. repeat split; try congruence; auto. intros _. exists t. auto. Qed.
+  Lemma frame_same : forall n parent, frame n parent parent.
+  Proof. intros n parent _ _. apply rw_refl. Qed.
 
   Lemma refines_scalar : forall n kind accept accept',
     has_path_kind n = true ->
@@ -29,23 +32,23 @@ Section Refine2.
     (forall parent tns r, render n parent tns r = scalar_render (node_path n) (node_nullable n) accept' parent) ->
     refines deny n.
   Proof.
-    intros n kind accept accept' Hk Hacc Hpw Hcp Hrd as_item depth Hwf parent path tns parent' errs st res errs' Hp Hc.
+    intros n kind accept accept' Hk Hacc Hpw Hcp Hrd depth Hwf parent path tns parent' errs st res errs' Hp Hc.
     rewrite Hpw in Hp. rewrite Hcp in Hc.
     destruct (scalar_prewalk path (node_path n) (node_nullable n) kind accept parent) as [e s] eqn:Hsp.
     injection Hp as <- <- <-.
     destruct (scalar_ok _ _ _ _ _ _ _ _ _ _ _ Hacc Hsp Hc) as (He & Hnp & Herr & Hok).
     split; [exact He|]. split; [exact Hnp|]. split; [exact Herr|]. split.
     - intros Hs. destruct (Hok Hs) as (t & Hr & Hsr). exists t. split; [exact Hr|]. rewrite Hrd. exact Hsr.
-    - intros _. left. reflexivity.
+    - apply frame_same.
   Qed.
 
   Ltac fin_tac Hg :=
-    repeat split; try congruence; try (intros _; left; reflexivity);
+    repeat split; try congruence; try (apply frame_same);
     try (intros _; eexists; split; [reflexivity|]; rewrite Hg; reflexivity).
 
   Lemma refines_enum : forall p nl ty vs inacc, refines deny (NEnum p nl ty vs inacc).
   Proof.
-    intros p nl ty vs inacc as_item depth Hwf parent path tns parent' errs st res errs' Hp Hc.
+    intros p nl ty vs inacc depth Hwf parent path tns parent' errs st res errs' Hp Hc.
     cbn [prewalk] in Hp. cbn [complete] in Hc. cbn [render]. cbv zeta in *.
     destruct (get_path p parent) as [x|] eqn:Hg.
     - destruct x as [| b | raw | s | items | m]; cbn [is_null_or_missing] in *.
@@ -54,7 +57,7 @@ Section Refine2.
       + injection Hp as <- <- <-; injection Hc as <- <-; fin_tac Hg.
       + destruct (mem_bytes s vs) eqn:Hv; cbn [negb] in *; [destruct (mem_bytes s inacc) eqn:Hi|];
           destruct nl; injection Hp as <- <- <-; injection Hc as <- <-;
-          repeat split; try congruence; try (intros _; left; reflexivity);
+          repeat split; try congruence; try (apply frame_same);
           intros _; eexists; (split; [reflexivity|]); rewrite Hg; cbn [is_null_or_missing];
           rewrite Hv; cbn [negb orb]; rewrite ?Hi; reflexivity.
       + injection Hp as <- <- <-; injection Hc as <- <-; fin_tac Hg.
@@ -63,114 +66,95 @@ Section Refine2.
   Qed.
 
   (* the null-or-missing branch shared by lists and objects *)
-  Lemma refines_missing : forall n as_item parent path parent' errs st res errs' tns,
+  Lemma refines_missing : forall n parent path parent' errs st res errs' tns,
     has_path_kind n = true ->
     is_null_or_missing (get_path (node_path n) parent) = true ->
     (if node_nullable n then (parent, [], WOk) else (parent, nonnull_error path (node_path n) parent, WErr))
       = (parent', errs, st) ->
     (if node_nullable n then (Some JNull, []) else (None, nonnull_error path (node_path n) parent))
       = (res, errs') ->
-    errs = errs' /\ st <> WPanic /\ (st = WErr -> res = None) /\
-    (st = WOk -> exists t, res = Some t /\ render n parent' tns false = (marshal t, false)) /\
-    (as_item = false -> parent' = parent \/
-       ((is_obj_node n || is_arr_node n) = true /\ exists k, node_path n = [k] /\ mutk k parent parent')).
+    node_post n parent tns parent' errs st res errs'.
   Proof.
-    intros n as_item parent path parent' errs st res errs' tns Hk Hm Hp Hc.
+    intros n parent path parent' errs st res errs' tns Hk Hm Hp Hc.
     destruct (node_nullable n) eqn:Hn; injection Hp as <- <- <-; injection Hc as <- <-;
-      repeat split; try congruence; auto.
+      repeat split; try congruence; try (apply frame_same).
     intros _. exists JNull. split; [reflexivity|]. apply render_nullish; auto.
   Qed.
 
-  Definition frame (n : node) (as_item : bool) (parent parent' : json) : Prop :=
-    as_item = false -> parent' = parent \/
-       ((is_obj_node n || is_arr_node n) = true /\ exists k, node_path n = [k] /\ mutk k parent parent').
-  Definition node_post (n : node) (as_item : bool) (parent : json) (tns : list (option bytes))
-             (parent' : json) (errs : list gerr) (st : wstatus) (res : option json) (errs' : list gerr) : Prop :=
-    errs = errs' /\ st <> WPanic /\ (st = WErr -> res = None) /\
-    (st = WOk -> exists t, res = Some t /\ render n parent' tns false = (marshal t, false)) /\
-    frame n as_item parent parent'.
-
-  Lemma post_err : forall n as_item parent tns parent' e,
-    frame n as_item parent parent' -> node_post n as_item parent tns parent' e WErr None e.
-  Proof. intros. repeat split; try congruence; auto. Qed.
-  Lemma post_ok : forall n as_item parent tns parent' e t,
-    render n parent' tns false = (marshal t, false) ->
-    frame n as_item parent parent' -> node_post n as_item parent tns parent' e WOk (Some t) e.
-  Proof. intros. repeat split; try congruence; auto. intros _. exists t. auto. Qed.
-  Lemma frame_same : forall n as_item parent, frame n as_item parent parent.
-  Proof. intros n as_item parent _. left. reflexivity. Qed.
-  Lemma frame_set : forall n as_item parent x v,
-    (is_obj_node n || is_arr_node n) = true ->
-    (as_item = true /\ node_path n = []) \/ (as_item = false /\ exists k, node_path n = [k]) ->
-    get_path (node_path n) parent = Some v ->
-    frame n as_item parent (set_path (node_path n) x parent).
+  (* writing back at the node's own (non-empty) path *)
+  Lemma frame_set_cons : forall n k r parent x v,
+    (is_obj_node n || is_arr_node n) = true -> node_path n = k :: r ->
+    get_path (k :: r) parent = Some v ->
+    frame n parent (set_path (k :: r) x parent).
   Proof.
-    intros n as_item parent x v Hoa Hshape Hg Has. right. split; [exact Hoa|].
-    destruct Hshape as [[H _]|[_ [k Hk]]]; [congruence|].
-    exists k. split; [exact Hk|]. rewrite Hk in *. eapply mutk_set; eauto.
+    intros n k r parent x v Hoa Hp Hg _ Htn.
+    assert (rpaths n = [k :: r]) as Hrp.
+    { rewrite <- Hp. apply rpaths_own; [destruct n; try discriminate; reflexivity | rewrite Hp; discriminate]. }
+    apply rewrites_one.
+    - rewrite Hrp. left. reflexivity.
+    - destruct n; try discriminate Hoa; cbn [node_path] in Hp; subst; cbn [tn_ok] in Htn;
+        eapply head_not_typename_cons; eauto.
+    - congruence.
   Qed.
-  Lemma post_nulled : forall n as_item parent tns e v,
-    (is_obj_node n || is_arr_node n) = true -> node_nullable n = true ->
-    (as_item = true /\ node_path n = []) \/ (as_item = false /\ exists k, node_path n = [k]) ->
-    get_path (node_path n) parent = Some v ->
-    node_post n as_item parent tns (set_path (node_path n) JNull parent) e WOk (Some JNull) e.
+
+  Lemma post_nulled : forall n k r parent tns e v,
+    (is_obj_node n || is_arr_node n) = true -> node_nullable n = true -> node_path n = k :: r ->
+    get_path (k :: r) parent = Some v ->
+    node_post n parent tns (set_path (k :: r) JNull parent) e WOk (Some JNull) e.
   Proof.
-    intros n as_item parent tns e v Hoa Hnl Hshape Hg.
-    apply post_ok; [|eapply frame_set; eauto].
+    intros n k r parent tns e v Hoa Hnl Hp Hg.
+    apply post_ok; [|eapply frame_set_cons; eauto].
     apply render_nullish; auto.
     - destruct n; try discriminate; reflexivity.
-    - erewrite get_set_path; eauto. destruct Hshape as [[_ ->]|[_ [k ->]]]; eauto.
+    - rewrite Hp, get_set_same by congruence. reflexivity.
   Qed.
 
   Lemma refines_arr : forall p nl item, refines deny item -> refines deny (NArr p nl item).
   Proof.
-    intros p nl item IH as_item depth Hwf parent path tns parent' errs st res errs' Hp Hc.
-    change (node_post (NArr p nl item) as_item parent tns parent' errs st res errs').
-    rewrite plan_wf_arr_eq in Hwf. apply andb_true_iff in Hwf. destruct Hwf as [Hpath Hiwf].
-    apply path_shape in Hpath.
-    assert (p = [] \/ exists k, p = [k]) as Hp01 by (destruct Hpath as [[_ ->]|[_ Hk]]; auto).
+    intros p nl item IH depth Hwf parent path tns parent' errs st res errs' Hp Hc.
+    change (node_post (NArr p nl item) parent tns parent' errs st res errs').
+    rewrite plan_wf_arr_eq in Hwf.
     rewrite prewalk_arr_eq in Hp. rewrite complete_arr_eq in Hc. cbv zeta in Hp.
     destruct (get_path p parent) as [x|] eqn:Hg;
       [destruct x as [| b | raw | s | items | m]|]; cbn [is_null_or_missing] in Hp;
       try (injection Hp as <- <- <-; injection Hc as <- <-; apply post_err; apply frame_same);
-      try (apply (refines_missing (NArr p nl item) as_item parent path parent' errs st res errs' tns);
+      try (apply (refines_missing (NArr p nl item) parent path parent' errs st res errs' tns);
            cbn [node_path node_nullable]; auto; rewrite Hg; reflexivity).
     destruct (pw_items deny item (push_names path p) tns items 0) as [[items' e] s] eqn:Hpi.
     destruct (comp_items deny item (push_names path p) tns items 0) as [r e'] eqn:Hci.
-    destruct (items_ok deny item nl p _ _ depth IH Hiwf _ _ _ _ _ _ _ Hpi Hci) as (He & Hs). subst e'.
+    destruct (items_ok deny item nl p _ _ depth IH Hwf _ _ _ _ _ _ _ Hpi Hci) as (He & Hs). subst e'.
+    (* the frame of a write-back at the list's own path *)
+    assert (forall x, frame (NArr p nl item) parent (set_path p x parent)) as Hframe.
+    { intros x. destruct p as [|k pr].
+      - intros [m ->] _. cbn [get_path] in Hg. discriminate Hg.
+      - eapply frame_set_cons; eauto. }
     destruct s as [s0|].
     - destruct Hs as (-> & ->).
       destruct nl.
       + destruct p as [|k rp].
-        * injection Hp as <- <- <-; injection Hc as <- <-. apply post_err.
-          apply (frame_set (NArr [] true item) as_item parent (JArr items') (JArr items)); auto.
+        * injection Hp as <- <- <-; injection Hc as <- <-. apply post_err. apply Hframe.
         * injection Hp as <- <- <-; injection Hc as <- <-.
-          apply (post_nulled (NArr (k :: rp) true item) as_item parent tns e (JArr items)); auto.
-      + injection Hp as <- <- <-; injection Hc as <- <-. apply post_err.
-        apply (frame_set (NArr p false item) as_item parent (JArr items') (JArr items)); auto.
+          apply (post_nulled (NArr (k :: rp) true item) k rp parent tns e (JArr items)); auto.
+      + injection Hp as <- <- <-; injection Hc as <- <-. apply post_err. apply Hframe.
     - destruct Hs as (l & -> & Hrd). injection Hp as <- <- <-. injection Hc as <- <-.
-      apply post_ok.
-      + rewrite render_arr_eq. cbv zeta. erewrite get_set_path by eauto. cbn [is_null_or_missing].
-        rewrite Hrd. rewrite marshal_arr_eq, marshal_items_bytes. reflexivity.
-      + apply (frame_set (NArr p nl item) as_item parent (JArr items') (JArr items)); auto.
+      apply post_ok; [|apply Hframe].
+      rewrite render_arr_eq. cbv zeta. rewrite get_set_same by congruence. cbn [is_null_or_missing].
+      rewrite Hrd. rewrite marshal_arr_eq, marshal_items_bytes. reflexivity.
   Qed.
 
   Lemma refines_obj : forall p nl ty poss inacc unres fields,
     Forall (fun f => refines deny (fval f)) fields -> refines deny (NObj p nl ty poss inacc unres fields).
   Proof.
-    intros p nl ty poss inacc unres fields IH as_item depth Hwf parent path tns parent' errs st res errs' Hp Hc.
-    change (node_post (NObj p nl ty poss inacc unres fields) as_item parent tns parent' errs st res errs').
-    rewrite plan_wf_obj_eq in Hwf. apply andb_true_iff in Hwf. destruct Hwf as [Hpath Hwf].
-    apply andb_true_iff in Hwf. destruct Hwf as [Hdist Hfwf].
-    apply path_shape in Hpath.
-    assert (p = [] \/ exists k, p = [k]) as Hp01 by (destruct Hpath as [[_ ->]|[_ Hk]]; auto).
+    intros p nl ty poss inacc unres fields IH depth Hwf parent path tns parent' errs st res errs' Hp Hc.
+    change (node_post (NObj p nl ty poss inacc unres fields) parent tns parent' errs st res errs').
+    rewrite plan_wf_obj_eq in Hwf. apply andb_true_iff in Hwf. destruct Hwf as [Hdist Hfwf].
     rewrite prewalk_obj_eq in Hp. rewrite complete_obj_eq in Hc. cbv zeta in Hp, Hc.
     destruct unres.
     { injection Hp as <- <- <-; injection Hc as <- <-. apply post_err; apply frame_same. }
     destruct (get_path p parent) as [x|] eqn:Hg;
       [destruct x as [| b | raw | s | items | m]|]; cbn [is_null_or_missing] in Hp;
       try (injection Hp as <- <- <-; injection Hc as <- <-; apply post_err; apply frame_same);
-      try (apply (refines_missing (NObj p nl ty poss inacc false fields) as_item parent path parent' errs st res errs' tns);
+      try (apply (refines_missing (NObj p nl ty poss inacc false fields) parent path parent' errs st res errs' tns);
            cbn [node_path node_nullable]; auto; rewrite Hg; reflexivity).
     destruct (tn_bad ty poss (typename_of (JObj m))) eqn:Htb.
     { destruct nl; injection Hp as <- <- <-; injection Hc as <- <-.
@@ -182,22 +166,32 @@ Section Refine2.
     destruct (comp_fields deny (JObj m) (push_names path p) (tn :: tns) tn fields) as [r e'] eqn:Hcf.
     assert (exists m0, JObj m = JObj m0) as Hobj by eauto.
     destruct (fields_ok deny nl p _ _ depth fields IH Hfwf Hdist (JObj m) tn eq_refl Hobj _ _ _ _ _ Hpf Hcf)
-      as (He & (m' & Hm') & Htn' & Hsk' & Hfr' & Hs).
-    subst e' value'.
+      as (He & Hrw & Hs).
+    subst e'.
+    destruct (rewrites_obj _ _ _ Hrw Hobj) as [m' Hm'].
+    pose proof (rewrites_typename _ _ _ Hrw) as Htn'. fold tn in Htn'.
+    (* the frame of a write-back at the object's own path: the rewritten value itself when the path is
+       empty (the object is the enclosing value), anything below a key otherwise *)
+    assert (forall x, x = value' \/ p <> [] ->
+                      frame (NObj p nl ty poss inacc false fields) parent (set_path p x parent)) as Hframe.
+    { intros x Hx. destruct p as [|k pr].
+      - destruct Hx as [->|Hx]; [|congruence]. cbn [get_path] in Hg. injection Hg as ->.
+        intros _ _. rewrite rpaths_obj_nil. exact Hrw.
+      - eapply frame_set_cons; eauto. }
     destruct s as [[nulled st0]|].
     - destruct Hs as (-> & Hn & Hst). destruct nulled.
       + rewrite <- Hn in Hc. injection Hp as <- <- <-; injection Hc as <- <-.
         symmetry in Hn. apply andb_true_iff in Hn. destruct Hn as [-> Hpne].
-        apply (post_nulled (NObj p true ty poss inacc false fields) as_item parent tns e (JObj m)); auto.
+        destruct p as [|k pr]; [discriminate Hpne|].
+        apply (post_nulled (NObj (k :: pr) true ty poss inacc false fields) k pr parent tns e (JObj m)); auto.
       + rewrite <- Hn in Hc. subst st0. injection Hp as <- <- <-; injection Hc as <- <-.
-        apply post_err.
-        apply (frame_set (NObj p nl ty poss inacc false fields) as_item parent (JObj m') (JObj m)); auto.
+        apply post_err. apply Hframe. left. reflexivity.
     - destruct Hs as (l & -> & Hrd). injection Hp as <- <- <-; injection Hc as <- <-.
-      apply post_ok.
-      + rewrite render_obj_eq. cbv zeta. erewrite get_set_path by eauto. cbn [is_null_or_missing].
-        rewrite Htn'. rewrite Htb. rewrite Hrd by auto.
-        rewrite marshal_obj_eq, marshal_members_bytes. reflexivity.
-      + apply (frame_set (NObj p nl ty poss inacc false fields) as_item parent (JObj m') (JObj m)); auto.
+      apply post_ok; [|apply Hframe; left; reflexivity].
+      rewrite render_obj_eq. cbv zeta. rewrite get_set_same by congruence. subst value'.
+      cbn [is_null_or_missing].
+      rewrite Htn'. rewrite Htb. rewrite Hrd by (auto using same_head_refl).
+      rewrite marshal_obj_eq, marshal_members_bytes. reflexivity.
   Qed.
 
   Theorem refines_all : forall n, refines deny n.
@@ -212,24 +206,24 @@ Section Refine2.
     - apply (refines_scalar _ 0 (fun _ => true) (fun _ => true)); auto.
     - apply (refines_scalar _ 0 (fun _ => true) (fun _ => true)); auto.
     - apply refines_enum.
-    - intros as_item depth Hwf parent path tns parent' errs st res errs' Hp Hc.
+    - intros depth Hwf parent path tns parent' errs st res errs' Hp Hc.
       injection Hp as <- <- <-; injection Hc as <- <-.
       apply post_ok; [reflexivity | apply frame_same].
-    - intros as_item depth Hwf parent path tns parent' errs st res errs' Hp Hc.
+    - intros depth Hwf parent path tns parent' errs st res errs' Hp Hc.
       injection Hp as <- <- <-; injection Hc as <- <-.
       apply post_ok; [|apply frame_same].
       simpl in Hwf. cbn [render marshal]. rewrite escape_string_plain by exact Hwf. reflexivity.
-    - intros as_item depth Hwf parent path tns parent' errs st res errs' Hp Hc.
+    - intros depth Hwf parent path tns parent' errs st res errs' Hp Hc.
       injection Hp as <- <- <-; injection Hc as <- <-.
       apply post_ok; [reflexivity | apply frame_same].
-    - intros as_item depth Hwf parent path tns parent' errs st res errs' Hp Hc.
+    - intros depth Hwf parent path tns parent' errs st res errs' Hp Hc.
       injection Hp as <- <- <-; injection Hc as <- <-.
       apply post_ok; [reflexivity | apply frame_same].
   Qed.
 
   (* ---- the root ---- *)
   Lemma root_wf_shape : forall root, root_wf root = true ->
-    exists ty poss inacc fields, root = NObj [] false ty poss inacc false fields /\ plan_wf true 0 root = true.
+    exists ty poss inacc fields, root = NObj [] false ty poss inacc false fields /\ plan_wf 0 root = true.
   Proof.
     intros root H. destruct root; try discriminate. unfold root_wf in H.
     destruct path; [|discriminate]. destruct nullable; [discriminate|]. destruct unresolvable; [discriminate|].
@@ -263,7 +257,7 @@ Section Refine2.
     unfold resolve, complete_root.
     destruct (prewalk deny (NObj [] false ty poss inacc false fields) data [] []) as [[data' errs] st] eqn:Hp.
     destruct (complete deny (NObj [] false ty poss inacc false fields) data [] []) as [res errs'] eqn:Hc.
-    destruct (refines_all _ true 0%nat Hpw _ _ _ _ _ _ _ _ Hp Hc) as (He & Hnp & Herr & Hok & _).
+    destruct (refines_all _ 0%nat Hpw _ _ _ _ _ _ _ _ Hp Hc) as (He & Hnp & Herr & Hok & _).
     subst errs'. cbn [fst snd].
     destruct st.
     - destruct (Hok eq_refl) as (t & -> & Hrd).
